@@ -1426,12 +1426,16 @@ func TestVerifC11Sched(t *testing.T) {
 		"scheduling points at SQL transaction begin and at every standalone statement (the single SQLite connection is a virtual lock); start states: no page yet, page in use, page one slot before roll-over")
 	r.Assume("inside one SQL transaction no other thread runs (SQLite with one connection); SELECT FOR UPDATE semantics of server databases are not explored")
 
-	starts := []string{"first", "mid", "rollover"}
-	// E = Entry (2 steps: start, transaction), R = Revoke (4: start, 2 statements, transaction), C = Credential (3)
-	threadSets := []string{"EE", "EEE", "EER", "EEC"} // 6, 90, 420, 210 interleavings
+	// Round 6: the state of the stored list is a dimension of the start state. "mid" = list fresh (Credential() returns
+	// it as stored); "mid-window" = 19 h old, inside the 6 h re-issue margin; "mid-expired" = 25 h old: in both,
+	// Credential() re-signs the list, with scheduling points at key resolution, signing and every SQL statement.
+	starts := []string{"first", "mid", "rollover", "mid-window", "mid-expired"}
+	// E = Entry (2 steps: start, transaction), R = Revoke (start, key, 2 statements, transaction), C = Credential (3; re-issue: 2 statements, key, transaction)
+	threadSets := []string{"EE", "EEE", "EER", "EEC", "RC", "CC"} // 6, 90, 420, 210 interleavings, ...
 	if r.Thorough() {
-		threadSets = []string{"EE", "EEE", "EER", "EEC", "ERC", "EERC"} // + 1 260 (complete), 69 300 (up to 3 preemptions)
+		threadSets = []string{"EE", "EEE", "EER", "EEC", "RC", "CC", "ERC", "RCC", "EERC"} // + 1 260 (complete), 69 300 (up to 3 preemptions)
 	}
+	reissue := func(start string) bool { return start == "mid-window" || start == "mid-expired" }
 	deadline := time.Now().Add(10 * time.Minute)
 	if v, err := strconv.Atoi(os.Getenv("VERIF_BUDGET_S")); err == nil && v > 0 {
 		deadline = time.Now().Add(time.Duration(v) * time.Second * 9 / 10)
@@ -1448,6 +1452,18 @@ func TestVerifC11Sched(t *testing.T) {
 			if ths == "EERC" && start != "rollover" {
 				continue // 69 300 interleavings: explored from the roll-over start state only
 			}
+			if reissue(start) && !strings.Contains(ths, "C") {
+				continue // the age of the list matters to Credential() only
+			}
+			if (ths == "RC" || ths == "CC") && !(reissue(start) || start == "mid") {
+				continue
+			}
+			if ths == "RCC" && !reissue(start) {
+				continue
+			}
+			if reissue(start) && !r.Thorough() && !(ths == "RC" || (ths == "CC" && start == "mid-window")) {
+				continue // quick: Revoke x Credential in both re-issue states, two re-issues in one
+			}
 			if replay && (rc.Start != start || rc.Threads != ths) {
 				continue
 			}
@@ -1455,7 +1471,7 @@ func TestVerifC11Sched(t *testing.T) {
 				continue
 			}
 			opts := sched.Options{Bound: -1, Shard: shard, NSh: nsh, SelfCheck: true, MaxSteps: 5000, Deadline: deadline}
-			if ths == "EERC" {
+			if ths == "EERC" || ths == "RCC" || (reissue(start) && len(ths) >= 3) {
 				// four threads, 11 steps: 69 300 interleavings; explored completely up to 3 preemptions (CHESS bound)
 				opts.Bound = 3
 				r.Bound("preemption_bound "+start+"/"+ths, 3)
@@ -1540,6 +1556,22 @@ func schedSetup(t *testing.T, r *ev.Run, x *sched.Exec, start, ths string) func(
 		url string
 		idx int
 	}
+	// scheduling points at the environment calls of the issuer half: key resolution and signing (no-ops outside threads)
+	// (for the thread sets of round 6; the earlier sets keep their granularity: transaction begin / standalone statement)
+	origKey, origSign := w.I.status.ResolveKey, w.I.status.Sign
+	envPoints := start == "mid-window" || start == "mid-expired" || ths == "RC" || ths == "CC" || ths == "RCC"
+	w.I.status.ResolveKey = func(id did.DID, at *time.Time, rel resolver.RelationType) (string, stdcrypto.PublicKey, error) {
+		if envPoints {
+			sched.Point("resolve-key")
+		}
+		return origKey(id, at, rel)
+	}
+	w.I.status.Sign = func(ctx context.Context, unsigned vc.VerifiableCredential, kid string) (*vc.VerifiableCredential, error) {
+		if envPoints && r.Thorough() { // inside a transaction in the unchanged code: quick keeps the point at key resolution only
+			sched.Point("sign")
+		}
+		return origSign(ctx, unsigned, kid)
+	}
 	var prior []slot
 	var entry0 *revocation.StatusList2021Entry
 	if start != "first" {
@@ -1557,10 +1589,16 @@ func schedSetup(t *testing.T, r *ev.Run, x *sched.Exec, start, ths string) func(
 				t.Fatal(err)
 			}
 		}
+		switch start {
+		case "mid-window":
+			vtime.Advance(19 * time.Hour)
+		case "mid-expired":
+			vtime.Advance(25 * time.Hour)
+		}
 	}
 	entries := make([]*revocation.StatusList2021Entry, len(ths))
 	errs := make([]error, len(ths))
-	var served *vc.VerifiableCredential
+	servedBy := make([]*vc.VerifiableCredential, len(ths))
 	for i, th := range ths {
 		i := i
 		switch th {
@@ -1573,8 +1611,8 @@ func schedSetup(t *testing.T, r *ev.Run, x *sched.Exec, start, ths string) func(
 				errs[i] = w.I.status.Revoke(w.ctx, ssi.MustParseURI(d.String()+"#6f7ad0c4-1d9c-4b8e-9d0a-0a9c0c0f3a11"), *entry0)
 			})
 		case 'C':
-			x.Go("credential", func() {
-				served, errs[i] = w.I.status.Credential(w.ctx, d, 1)
+			x.Go(fmt.Sprintf("credential%d", i), func() {
+				servedBy[i], errs[i] = w.I.status.Credential(w.ctx, d, 1)
 			})
 		}
 	}
@@ -1617,7 +1655,7 @@ func schedSetup(t *testing.T, r *ev.Run, x *sched.Exec, start, ths string) func(
 			case 'C':
 				if errs[i] != nil {
 					r.Observation("concurrent-credential-error", errs[i].Error())
-				} else if served != nil {
+				} else if served := servedBy[i]; served != nil {
 					now := vtime.Now()
 					if err := w.I.ver.VerifySignature(*served, &now); err != nil {
 						violation("served-list-not-validly-signed", err.Error(), x)
@@ -1638,8 +1676,10 @@ func schedSetup(t *testing.T, r *ev.Run, x *sched.Exec, start, ths string) func(
 		}
 		// afterwards, sequentially: every page is served, signed, and shows exactly the issuer's revocations;
 		// the counters cover every slot handed out
+		w.scenario, w.replay = "sched", schedCase{Start: start, Threads: ths, Schedule: x.Choices()}
+		w.hist = []event{{Op: "sched", K: start + "/" + ths}}
+		w.checkStored() // the list the node holds shows every revocation that was answered with success
 		for _, u := range w.m.urls() {
-			w.hist = []event{{Op: "sched", K: start + "/" + ths}}
 			w.serve(u)
 		}
 		last := map[string]int{}
